@@ -151,6 +151,24 @@ CHECKS = {
         design="§8 C19",
         technique="Lean 4 decide over a template table regenerated from source + rustc on renamed-dependency and per-name corpora",
         note=TB + " Partial: name resolution is rustc's; the lifting from templates to emitted tokens rests on the crate producing tokens only through quote! (grepped each run)."),
+    "C10": dict(
+        text="Machine-checked proofs on the model of the remote helpers: the executor's message carries exactly the handle's address, the attached funds and the encoding "
+             "of the message the like-named constructor builds, and that document, fed to the target's entry point, runs exactly the like-named handler with the same argument "
+             "values (corollary of C02.dispatch_exact through C05Gen's parts theorem); likewise the querier; the instantiate builder's defaults, last-writer-wins and "
+             "commutation of distinct setters, build2 = build + salt; admin helpers name the handle's address. Tie: for every exec/query method of every compiled generated "
+             "contract, Remote::executor / BoundQuerier (handle typed by the contract and by dyn Interface) build the message, which is then fed to the real entry point "
+             "(echo handlers; recording mock querier for queries); random setter sequences on the real InstantiateBuilder; model vs real vs python expected output.",
+        design="§8 C10",
+        technique="Lean 4 proof (corollary of the dispatch refinement + record algebra) + L2 differential through the real helpers and entry points",
+        note=TB + " cosmwasm_std's WasmMsg/QueryRequest encoding and the chain's delivery of the message are outside the model (the harness delivers the body itself)."),
+    "C16": dict(
+        text="Machine-checked proofs on the model of the QueryResponses derives: the response map of a contract's query type has exactly one entry per query variant of the "
+             "contract and of every implemented interface, keyed by wire name with the declared response type (explicit resp= wins), and the wrapper's map is the union of the "
+             "parts' maps; keys are distinct whenever the routing lists are disjoint (C05). Tie: response_schemas() of compiled generated contracts (own type, each interface "
+             "type, wrapper) and the wrapper schema's any-of list vs the model and vs a python statement.",
+        design="§8 C16",
+        technique="Lean 4 proof (list/map characterisation) + L2 differential on response_schemas of real generated types",
+        note=TB + " cosmwasm_schema's derive and schemars' schema generation are trusted; response types are compared by schema title."),
 }
 
 ALL = ["C%02d" % i for i in range(1, 21)]
@@ -174,7 +192,7 @@ def main():
             {"name": "lean", "path": "lean/", "serves_properties": sorted(CHECKS), "kind_free_text": "Lean 4 model + theorems + svmodel line-protocol driver"},
             {"name": "hook", "path": "harness/hook/", "serves_properties": ["C06", "C13", "C01", "C02", "C03", "C04", "C05", "C14", "C15", "C17", "C18", "C19"], "kind_free_text": "in-process macro expansion + source translator, compiled into sylvia-derive tests via the verif-hook feature (L1)"},
             {"name": "rt", "path": "harness/rt/", "serves_properties": ["C05", "C01", "C11", "C20"], "kind_free_text": "Rust harness calling the real runtime library (L3)"},
-            {"name": "corpus", "path": "harness/corpus/ + vlib/corpus.py", "serves_properties": ["C01", "C02", "C03", "C04", "C05", "C07", "C08", "C09", "C14"], "kind_free_text": "generated contracts compiled against /repo/sylvia with echo handlers (L2)"},
+            {"name": "corpus", "path": "harness/corpus/ + vlib/corpus.py", "serves_properties": ["C01", "C02", "C03", "C04", "C05", "C07", "C08", "C09", "C10", "C14", "C16"], "kind_free_text": "generated contracts compiled against /repo/sylvia with echo handlers (L2)"},
         ],
         "checks": [],
         "not_applicable": [],
